@@ -299,6 +299,10 @@ class Spinner:
             junk = self.get_junk()
             if junk:
                 raise StaleJunkError(junk)
+            # Forget the result of any previous run: this run must report
+            # its own function's result (or the lack of one).
+            self._success = self._UNSET
+            self._failure = self._UNSET
             self._save_signals()
             self._timeout_call = self._reactor.callLater(
                 timeout, self._timed_out, function, timeout
